@@ -39,6 +39,15 @@ class Raised(Exception):
         return self.exc.cls
 
 
+class NeedInline(Exception):
+    """A decision depends on the result of a higher-order call that was summarised as an opaque
+    codec invocation: the exploration is restarted with that callee inlined."""
+
+    def __init__(self, uid):
+        self.uid = uid
+        super().__init__(f"need to inline function #{uid}")
+
+
 class _Return(Exception):
     def __init__(self, v):
         self.v = v
